@@ -3,12 +3,17 @@
 //   reads print:  <value> <remaining characters, hex> <eofbit><failbit>
 #include <iostream>
 #include <sstream>
+#include <iomanip>
 #include <string>
 #include <vector>
 #include <map>
 #include <memory>
 #include <iterator>
 #include <cstdlib>
+#include <csignal>
+#include <unistd.h>
+#include <sys/time.h>
+#include <sys/resource.h>
 #include "givinteger.h"
 #include "givrational.h"
 #include "qfield.h"
@@ -107,6 +112,19 @@ static std::string int_ops(const std::string& op, const Args& a) {
         Integer x = parseZ(a[0]); int n = atoi(a[1].c_str()); std::istringstream is(unhex(a[2])); ZRing<Integer> Z; std::string r;
         for (int i = 0; i < n; ++i) { if (op == "int.seqd.op") is >> x; else Z.read(is, x); r += show(x) + ":" + stnx(is) + " "; }
         return r + restof(is);
+    }
+    if (op == "int.flags") {    // base width fill(hex) showpos showbase upper adjust(r|l|i) z old : operator<< under stream flags, read back in that base
+        int base = atoi(a[0].c_str()), width = atoi(a[1].c_str()); std::string fill = unhex(a[2]); Integer z = parseZ(a[7]), x = parseZ(a[8]);
+        std::ostringstream o;
+        if (base == 16) o << std::hex; else if (base == 8) o << std::oct;
+        if (a[3] == "1") o << std::showpos; if (a[4] == "1") o << std::showbase; if (a[5] == "1") o << std::uppercase;
+        if (a[6] == "l") o << std::left; else if (a[6] == "i") o << std::internal;
+        if (!fill.empty()) o << std::setfill(fill[0]);
+        o << std::setw(width) << z << "|" << z;          // the width applies to one value only
+        std::string t = o.str(), first = t.substr(0, t.find('|'));
+        std::istringstream is(first); if (base == 16) is >> std::hex; else if (base == 8) is >> std::oct;
+        is >> x;
+        return hex(t) + " " + show(x) + " " + after(is);
     }
     if (op == "int.wseqb") {    // base old sep v1,v2,.. n : several Integers on one ostream in hex / oct mode, read back in that mode
         int base = atoi(a[0].c_str()); Integer x = parseZ(a[1]); std::string sep = unhex(a[2]); std::vector<std::string> vs = split(a[3], ','); int n = atoi(a[4].c_str());
@@ -275,7 +293,6 @@ template <class Ring> struct PolyIO {
             P B(os.size()); for (size_t i = 0; i < os.size(); ++i) F.init(B[i], parseZ(os[i]));
             int n = atoi(a[2].c_str()); std::istringstream is(unhex(a[3])); std::string r;
             for (int i = 0; i < n; ++i) {
-                if (!is.good()) break;      // `long deg; i >> deg;` leaves deg unset on a stream that is not good
                 D.read(is, B); r += showp(F, B, p) + ":" + stnx(is) + " ";
             }
             return r + restof(is);
@@ -335,11 +352,14 @@ static std::string ext_ops(const std::string& op, const Args& a) {
     std::vector<std::string> ir = split(a[1], ','), os = split(a[2], ',');
     P irr(ir.size()); for (size_t i = 0; i < ir.size(); ++i) f.init(irr[i], parseZ(ir[i]));
     Ext E(D, irr);
+    if (op == "ext.write") {            // p irred cs : Extension::write(o, element) (= the polynomial writer of its polynomial domain)
+        P A(os.size()); for (size_t i = 0; i < os.size(); ++i) f.init(A[i], parseZ(os[i]));
+        std::ostringstream o; E.write(o, A); return hex(o.str());
+    }
     if (op == "ext.seqd") {             // p irred old n text
         P B(os.size()); for (size_t i = 0; i < os.size(); ++i) f.init(B[i], parseZ(os[i]));
         int n = atoi(a[3].c_str()); std::istringstream is(unhex(a[4])); std::string r;
         for (int i = 0; i < n; ++i) {
-            if (!is.good()) break;
             E.read(is, B); r += PolyIO<F>::showp(f, B, p) + ":" + stnx(is) + " ";
         }
         return r + restof(is);
@@ -408,6 +428,18 @@ template <size_t K> struct RecIO {
     }
 };
 
+// rmint<K, MG>: operator<< prints the residue (de-montgomerised), operator>> reads a ruint and brings it into the representation
+template <size_t K, size_t MG> static std::string rm_seqd(const Args& a) {     // p old sep v1,v2,.. n : written to one ostream, n reads into one variable
+    typedef RecInt::rmint<K, MG> M;
+    M::init_module(RecInt::ruint<K>(parseZ(a[0])));
+    M x(RecInt::ruint<K>(parseZ(a[1]))); std::string sep = unhex(a[2]); std::vector<std::string> vs = split(a[3], ','); int n = atoi(a[4].c_str());
+    std::ostringstream o;
+    for (size_t i = 0; i < vs.size(); ++i) { M w(RecInt::ruint<K>(parseZ(vs[i]))); if (i) o << sep; o << w; }
+    std::istringstream is(o.str()); std::string r = hex(o.str()) + " ";
+    for (int i = 0; i < n; ++i) { is >> x; std::ostringstream v; v << x; r += v.str() + ":" + stnx(is) + " "; }
+    return r + restof(is);
+}
+
 // plain num_get (what ModularBalanced<intN>, ModularExtended, GFqDom and the polynomial reader rely on)
 template <class T> static std::string numget(const Args& a) {
     T v = (T) atoll(a[0].c_str()); std::istringstream is(unhex(a[1])); is >> v;
@@ -454,7 +486,23 @@ static std::map<std::string, Fn> rings, polys;
 #define REG(name, ...) rings[name] = &RingIO<__VA_ARGS__ >::go
 #define REGP(name, ...) polys[name] = &PolyIO<__VA_ARGS__ >::go
 
-int main() {
+// per-case CPU-time watchdog (ITIMER_PROF counts CPU time of this process: independent of the machine load) and crash
+// reporting: every result line is flushed, so the marker line stands for the case that was running; the check re-runs
+// that case alone with a larger budget and continues with the cases after it.
+static void on_prof(int) { const char m[] = "CPU-TIMEOUT\n"; if (write(1, m, sizeof(m) - 1)) {} _exit(3); }
+static void on_crash(int sig) {
+    char m[] = "CRASHED 00\n"; m[8] = char('0' + (sig / 10) % 10); m[9] = char('0' + sig % 10);
+    if (write(1, m, sizeof(m) - 1)) {} _exit(4);
+}
+static void arm(long seconds) {
+    struct itimerval it; it.it_interval.tv_sec = 0; it.it_interval.tv_usec = 0; it.it_value.tv_sec = seconds; it.it_value.tv_usec = 0;
+    setitimer(ITIMER_PROF, &it, 0);
+}
+
+int main(int argc, char** argv) {
+    long budget = argc > 1 ? atol(argv[1]) : 30;
+    { struct rlimit rl; rl.rlim_cur = rl.rlim_max = (rlim_t) 6 << 30; setrlimit(RLIMIT_AS, &rl); }   // a garbage size must fail as bad_alloc, not eat the machine
+    signal(SIGPROF, on_prof); signal(SIGSEGV, on_crash); signal(SIGBUS, on_crash); signal(SIGFPE, on_crash); signal(SIGABRT, on_crash); signal(SIGILL, on_crash);
     REG("i8_i8", Modular<int8_t, int8_t>);     REG("i8_i16", Modular<int8_t, int16_t>);
     REG("u8_u8", Modular<uint8_t, uint8_t>);   REG("u8_u16", Modular<uint8_t, uint16_t>);
     REG("i16_i32", Modular<int16_t, int32_t>); REG("u16_u32", Modular<uint16_t, uint32_t>);
@@ -482,6 +530,7 @@ int main() {
         std::istringstream ls(line); std::string op, t; ls >> op; if (!ls) continue;
         Args a; while (ls >> t) a.push_back(t);
         std::string out;
+        arm(budget);
         try {
             if (op.compare(0, 4, "int.") == 0) out = int_ops(op, a);
             else if (op.compare(0, 4, "rat.") == 0) out = rat_ops(op, a);
@@ -494,6 +543,10 @@ int main() {
             } else if (op.compare(0, 4, "gfq.") == 0) {
                 std::string w = a[0]; a.erase(a.begin());
                 out = (w == "32") ? GfqIO<int32_t>::go(op, a) : GfqIO<int64_t>::go(op, a);
+            } else if (op == "rm.seqd") {         // mg K ...
+                std::string mg = a[0], k = a[1]; a.erase(a.begin(), a.begin() + 2);
+                out = (k == "6") ? (mg == "1" ? rm_seqd<6, RecInt::MGA>(a) : rm_seqd<6, RecInt::MGI>(a))
+                                 : (mg == "1" ? rm_seqd<7, RecInt::MGA>(a) : rm_seqd<7, RecInt::MGI>(a));
             } else if (op == "mix.rt") {
                 out = mix_rt(a);
             } else if (op.compare(0, 4, "ext.") == 0) {
@@ -512,7 +565,8 @@ int main() {
                     : K == 9 ? RecIO<9>::go(op, a) : K == 10 ? RecIO<10>::go(op, a) : K == 11 ? RecIO<11>::go(op, a) : K == 12 ? RecIO<12>::go(op, a) : "UNSUPPORTED-K";
             } else out = "UNKNOWN-OP";
         } catch (...) { out = "EXCEPTION"; }
-        std::cout << out << "\n";
+        arm(0);
+        std::cout << out << "\n" << std::flush;
     }
     return 0;
 }
